@@ -268,3 +268,223 @@ func c01OpenSegmentBookkeeping(c *core.Ctx, r *core.Report) {
 	_ = strings.Join
 	_ = exits
 }
+
+// ---------------------------------------------------------------------------------------------- (11) NARROWINDEX
+//
+// Go accepts an index or slice bound of any integer type and evaluates its arithmetic in that type.  A record number
+// or word count held in a uint8 / uint16 that is MULTIPLIED (or shifted) by the element width and used as an index
+// therefore wraps for the upper part of its range: records above 32767 (for a 2-byte element) overwrite or read the
+// slots of earlier records.  Every index, slice bound and widening conversion in the repository whose operand is a
+// product or left shift computed in an 8- or 16-bit unsigned type from a non-constant value is a violation; the
+// sound form widens first (int(i)*2).
+func c01NarrowIndex(c *core.Ctx, r *core.Report) {
+	narrow := func(t types.Type) bool {
+		b, ok := t.Underlying().(*types.Basic)
+		return ok && (b.Kind() == types.Uint8 || b.Kind() == types.Uint16)
+	}
+	isScaled := func(v ssa.Value) *ssa.BinOp {
+		bo, ok := v.(*ssa.BinOp)
+		if !ok || !narrow(bo.Type()) || (bo.Op != token.MUL && bo.Op != token.SHL) {
+			return nil
+		}
+		_, cx := bo.X.(*ssa.Const)
+		_, cy := bo.Y.(*ssa.Const)
+		if cx && cy {
+			return nil
+		}
+		// scaling by 1 or shifting by 0 is harmless
+		if k, ok := core.ConstIntValue(bo.Y); ok && ((bo.Op == token.MUL && k <= 1) || (bo.Op == token.SHL && k == 0)) {
+			return nil
+		}
+		return bo
+	}
+	type hit struct {
+		fn *ssa.Function
+		at ssa.Instruction
+	}
+	var hits []hit
+	nIdx := 0
+	for _, fn := range c.RepoFunctions() {
+		for _, b := range fn.Blocks {
+			for _, in := range b.Instrs {
+				var ops []ssa.Value
+				switch x := in.(type) {
+				case *ssa.IndexAddr:
+					ops = []ssa.Value{x.Index}
+				case *ssa.Index:
+					ops = []ssa.Value{x.Index}
+				case *ssa.Slice:
+					ops = []ssa.Value{x.Low, x.High, x.Max}
+				case *ssa.Convert:
+					// widening of a narrow product that then positions something: buf[int(i*2)], off + uint32(n<<3)
+					if narrow(x.X.Type()) && !narrow(x.Type()) && feedsPosition(x, 0) {
+						ops = []ssa.Value{x.X}
+					}
+				default:
+					continue
+				}
+				for _, op := range ops {
+					if op == nil {
+						continue
+					}
+					if narrow(op.Type()) {
+						nIdx++
+					}
+					if isScaled(op) != nil {
+						hits = append(hits, hit{fn, in})
+					}
+				}
+			}
+		}
+	}
+	sort.Slice(hits, func(i, j int) bool {
+		if hits[i].fn.String() != hits[j].fn.String() {
+			return hits[i].fn.String() < hits[j].fn.String()
+		}
+		return hits[i].at.Pos() < hits[j].at.Pos()
+	})
+	per := map[string]int{}
+	for _, h := range hits {
+		name := shortFn(h.fn)
+		per[name]++
+		r.Violation("BOUND", fmt.Sprintf("%s:scaled-narrow-index#%d-is-widened-before-scaling", name, per[name]), c.Pos(h.at.Pos()), "an 8/16-bit unsigned value is multiplied (or shifted) in its own type and the product is used as an index, slice bound or wider number: the product wraps for the upper part of the value's range (a uint16 record number times a 2-byte width wraps above 32767), so late records overwrite or read the slots of early ones")
+	}
+	if len(hits) == 0 {
+		r.OK("BOUND", "no-scaled-narrow-index", "-", fmt.Sprintf("%d uses of 8/16-bit unsigned values as indexes, bounds or widened operands, none of them a product or shift computed in the narrow type", nIdx))
+	}
+	r.Floor("BOUND", "uses of 8/16-bit unsigned values as indexes or widened operands", nIdx, 100)
+}
+
+// feedsPosition: the value is used (directly or through +, - and conversions) as an index or slice bound.
+func feedsPosition(v ssa.Value, depth int) bool {
+	if depth > 3 || v.Referrers() == nil {
+		return false
+	}
+	for _, u := range *v.Referrers() {
+		switch x := u.(type) {
+		case *ssa.IndexAddr:
+			if x.Index == v {
+				return true
+			}
+		case *ssa.Index:
+			if x.Index == v {
+				return true
+			}
+		case *ssa.Slice:
+			if x.Low == v || x.High == v || x.Max == v {
+				return true
+			}
+		case *ssa.BinOp:
+			if (x.Op == token.ADD || x.Op == token.SUB) && feedsPosition(x, depth+1) {
+				return true
+			}
+		case *ssa.Convert:
+			if feedsPosition(x, depth+1) {
+				return true
+			}
+		case *ssa.Phi:
+			if feedsPosition(x, depth+1) {
+				return true
+			}
+		}
+	}
+	return false
+}
+
+// ---------------------------------------------------------------------------------------------- (12) MIDBLOCK
+//
+// A column that first appears at record k > 0 of a block must get k backfill entries before its first value, whatever
+// the type of that first value (an explicit JSON null included): all columns of a block hold one entry per record.
+// In initAndBackFillColumn the call of backFillPastRecords is governed by nothing but "the column is not yet in this
+// block" (comma-ok map tests) and "the block already has records" (the record count compared with zero).
+func c01MidBlockBackfill(c *core.Ctx, r *core.Report) {
+	fn := c.Fn(pkgWriter, "SegStore.initAndBackFillColumn")
+	back := c.Obj(pkgWriter, "SegStore.backFillPastRecords")
+	recCount := c.Field(pkgStructs, "BlockSummary.RecCount")
+	calls := callsTo(fn, back)
+	r.Floor("BACKFILL", "calls of backFillPastRecords in initAndBackFillColumn", len(calls), 1)
+	isRecCount := func(v ssa.Value) bool {
+		for i := 0; i < 3; i++ {
+			if cv, ok := v.(*ssa.Convert); ok {
+				v = cv.X
+			}
+		}
+		ld, ok := v.(*ssa.UnOp)
+		if !ok {
+			return false
+		}
+		fa, ok := ld.X.(*ssa.FieldAddr)
+		return ok && core.FieldOfAddr(fa) == recCount
+	}
+	for i, call := range calls {
+		construct := fmt.Sprintf("%s:mid-block-backfill#%d-whatever-the-type", shortFn(fn), i+1)
+		bad := ""
+		for b := call.Block(); b != nil; b = b.Idom() {
+			idom := b.Idom()
+			if idom == nil {
+				break
+			}
+			ifi, ok := core.LastIf(idom)
+			if !ok {
+				continue
+			}
+			// only conditions that really govern b (b is on one side only)
+			on0 := idom.Succs[0] == b || idom.Succs[0].Dominates(b)
+			on1 := idom.Succs[1] == b || idom.Succs[1].Dominates(b)
+			if on0 == on1 {
+				continue
+			}
+			var leaves func(v ssa.Value, depth int) []ssa.Value
+			leaves = func(v ssa.Value, depth int) []ssa.Value {
+				if depth > 4 {
+					return []ssa.Value{v}
+				}
+				switch x := v.(type) {
+				case *ssa.UnOp:
+					if x.Op == token.NOT {
+						return leaves(x.X, depth+1)
+					}
+				case *ssa.Phi:
+					// short-circuit && / ||
+					var out []ssa.Value
+					for _, e := range x.Edges {
+						if _, isK := e.(*ssa.Const); !isK {
+							out = append(out, leaves(e, depth+1)...)
+						}
+					}
+					for _, p := range x.Block().Preds {
+						if pi, ok := core.LastIf(p); ok {
+							out = append(out, leaves(pi.Cond, depth+1)...)
+						}
+					}
+					return out
+				}
+				return []ssa.Value{v}
+			}
+			for _, leaf := range leaves(ifi.Cond, 0) {
+				okLeaf := false
+				switch x := leaf.(type) {
+				case *ssa.Extract:
+					if lk, ok := x.Tuple.(*ssa.Lookup); ok && lk.CommaOk && x.Index == 1 {
+						okLeaf = true
+					}
+				case *ssa.BinOp:
+					if k, ok := core.ConstIntValue(x.Y); ok && k == 0 && isRecCount(x.X) {
+						okLeaf = true
+					}
+					if k, ok := core.ConstIntValue(x.X); ok && k == 0 && isRecCount(x.Y) {
+						okLeaf = true
+					}
+				}
+				if !okLeaf {
+					bad = leaf.String()
+				}
+			}
+		}
+		if bad != "" {
+			r.Violation("BACKFILL", construct, c.Pos(call.Pos()), "the backfill of a column that appears in the middle of a block also depends on `"+bad+"`: where that test skips it, the column is short by the number of earlier records, so its values belong to the wrong events (dictionary block) or the whole column of the block is dropped at flush")
+		} else {
+			r.OK("BACKFILL", construct, c.Pos(call.Pos()), "governed only by the column's absence from the block and a non-zero record count")
+		}
+	}
+}
